@@ -10,7 +10,7 @@ equal concrete types.
 """
 import json, itertools, decimal, os
 from props import c02gen as G
-from props.c02gen import leaf, seq, tup, dct, opt, union, lit, named, typed, data
+from props.c02gen import leaf, seq, tup, dct, opt, optr, union, lit, named, typed, data
 
 META = {
     'id': 'C02',
@@ -51,6 +51,31 @@ IMPORTS = ['PyStr', 'V1Base', 'V1Gen', 'V1Errors', 'V1Eval', 'V1Show']
 SIMPLE = ['int', 'str', 'float', 'bool']
 ALL_LEAVES = ['str', 'int', 'float', 'bool', 'none', 'nonebare', 'bytes', 'bytearray', 'uuid', 'decimal', 'path', 'date', 'time',
               'datetime', 'timedelta', 'any', 'enum:Color', 'enum:Num']
+
+
+# Unions whose dumped form is unambiguous (exact-type dispatch for the simple members, at most one
+# member that parses text) and Literals: used like leaves, in particular INSIDE NamedTuple / TypedDict /
+# dataclass members that are siblings within one field, and below field-level Unions.
+ATOMS = [
+    ('U[int,str]', lambda: union(leaf('int'), leaf('str'))),
+    ('U[float,bool]', lambda: union(leaf('float'), leaf('bool'))),
+    ('U[int,float]', lambda: union(leaf('int'), leaf('float'))),
+    ('U[bytes,int]', lambda: union(leaf('bytes'), leaf('int'))),
+    ('U[None,int,bytes]', lambda: union(leaf('none'), leaf('int'), leaf('bytes'))),
+    ('U[bytearray,int]', lambda: union(leaf('bytearray'), leaf('int'))),
+    ('U[str,float,None]', lambda: union(leaf('str'), leaf('float'), leaf('none'))),
+    ('U[int,list[int]]', lambda: union(leaf('int'), seq('list', leaf('int')))),
+    ('U[bool,dict[str,int]]', lambda: union(leaf('bool'), dct(leaf('str'), leaf('int')))),
+    ("L['a','b']", lambda: lit('a', 'b')),
+    ('L[1,2]', lambda: lit(1, 2)),
+    ('L[True]', lambda: lit(True)),
+    ("L['x',3,None]", lambda: lit('x', 3, None)),
+]
+HELPER_CTX = ['named', 'typedr', 'typedo', 'data']
+# field names beyond canonical snake_case (mixedCase, digits, upper-case runs, trailing underscore):
+# under AUTO and under every explicit key case the unchanged tree round-trips all of them
+VARIED_NAMES = ['nodeId', 'rawData', 'xq', 'Name', 'node2Ix', 'URLPath', 'myHTTPServer', 'get_HTTP_code', 'k9s',
+                'camelCaseName', 'ab_cd', 'trail_', 'zz']
 
 
 # ---------------------------------------------------------------------------------- model builder
@@ -102,6 +127,7 @@ CONTEXTS = {
     'dictk': lambda t, mb: dct(t, leaf('int')),
     'ddictv': lambda t, mb: dct(leaf('str'), t, dd=True),
     'opt': lambda t, mb: opt(t),
+    'optr': lambda t, mb: optr(t),
     'named': lambda t, mb: mb.named([('aa', leaf('int')), ('bb', t)]),
     'typedr': lambda t, mb: mb.typed([('rk', t)], []),
     'typedo': lambda t, mb: mb.typed([('rk', leaf('int'))], [('ok', t)]),
@@ -113,7 +139,7 @@ NEEDS_HASHABLE = {'set', 'frozenset', 'dictk'}
 def ctx_ok(name, t, model):
     if name in NEEDS_HASHABLE and not G.hashable_ty(t, model):
         return False
-    if name == 'opt' and (t['k'] == 'opt' or t == leaf('none') or t == leaf('nonebare') or t == leaf('any')):
+    if name in ('opt', 'optr') and (t['k'] in ('opt', 'optr', 'union') or t == leaf('none') or t == leaf('nonebare') or t == leaf('any')):
         return False
     if name == 'ddictv' and not ((t['k'] == 'leaf' and t['l'] in ('str', 'int', 'float', 'bool')) or
                                  (t['k'] == 'seq' and t['kind'] in ('list', 'set')) or
@@ -125,8 +151,9 @@ def ctx_ok(name, t, model):
 
 
 def compose(ctxs, l, mb):
-    """apply contexts innermost-first to leaf l; None when a constraint fails"""
-    t = leaf(l)
+    """apply contexts innermost-first to leaf l (a leaf name, or an atom: a ready-made type);
+    None when a constraint fails"""
+    t = leaf(l) if isinstance(l, str) else l
     for c in ctxs:
         if not ctx_ok(c, t, mb.m):
             return None
@@ -206,7 +233,7 @@ def gen_value(r, t, model, depth=0, neg_td=False):
         keys = distinct([gen_value(r, t['kt'], model, depth + 1, neg_td) for _ in range(n)])
         return ['D', G.dd_factory(t['vt']) if t['dd'] else None,
                 [[kk, gen_value(r, t['vt'], model, depth + 1, neg_td)] for kk in keys]]
-    if k == 'opt':
+    if k in ('opt', 'optr'):
         return ['N'] if r.random() < 0.3 else gen_value(r, t['t'], model, depth, neg_td)
     if k == 'union':
         return gen_value(r, r.choice(t['ts']), model, depth, neg_td)
@@ -254,7 +281,8 @@ def has_neg_td_any(x):
     return False
 
 
-REGION_ID = {'F3': 'F3-neg-timedelta-v1', 'F9': 'F9-v1-same-name', 'F28': 'F28-dump-frozenset-in-dict-key'}
+REGION_ID = {'F3': 'F3-neg-timedelta-v1', 'F9': 'F9-v1-same-name', 'F28': 'F28-dump-frozenset-in-dict-key',
+             'F52': 'F52-v1-union-none-first', 'F53': 'F53-v1-union-list-before-dict'}
 
 
 def open_region(ctx, reg):
@@ -272,6 +300,23 @@ def frozenset_in_key(m):
     return False
 
 
+def list_before_dict(t, model):
+    """F53: a Union in which a list / set / tuple[...] member is tried before a dict member"""
+    for s in G.subtypes(t, model):
+        if s['k'] == 'union':
+            seen_seq = False
+            for x in s['ts']:
+                if x['k'] == 'seq':
+                    seen_seq = True
+                if x['k'] == 'dict' and seen_seq:
+                    return True
+    return False
+
+
+def model_any(m, pred):
+    return any(pred(f['ty'], m) for c in m['classes'] for f in c['fields'])
+
+
 def has_bare_none(t, model):
     return any(s['k'] == 'leaf' and s['l'] == 'nonebare' for s in G.subtypes(t, model))
 
@@ -285,7 +330,7 @@ def predicted_clean(t, model):
     tuples F18, sequences in dict keys F48, several Literals / Unions in one field F22, bare None F49) and
     of the open dump defect F28 get a class of their own, so that a regression is reported with a
     minimal concrete input."""
-    if has_bare_none(t, model):
+    if has_bare_none(t, model) or any(s['k'] == 'optr' for s in G.subtypes(t, model)) or list_before_dict(t, model):
         return False
     if any(s['k'] == 'dict' and any(x['k'] == 'seq' and x['kind'] == 'frozenset' for x in G.subtypes(s['kt'], model))
            for s in G.subtypes(t, model)):
@@ -309,8 +354,9 @@ def build_cases(ctx):
         mi[0] += 1
         return MB(mi[0], kc, dump)
 
-    def flush(pack, kc=None, dump=None):
+    def flush(pack, kc=None, dump=None, names=None):
         """pack: list of (label, ctxs, leaf).  Builds one model whose root has these fields."""
+        names = names or G.FIELD_NAMES
         mb = new_mb(kc, dump)
         root = mb.cls([])            # reserve index 0 for the root
         fields, labels = [], []
@@ -318,7 +364,7 @@ def build_cases(ctx):
             t = compose(ctxs, l, mb)
             if t is None:
                 continue
-            fields.append({'name': G.FIELD_NAMES[len(fields) % len(G.FIELD_NAMES)] + ('' if len(fields) < len(G.FIELD_NAMES) else 'x'),
+            fields.append({'name': names[len(fields) % len(names)] + ('' if len(fields) < len(names) else 'x'),
                            'ty': t, 'default': None})
             labels.append(label)
         if not fields:
@@ -364,6 +410,42 @@ def build_cases(ctx):
     if pending:
         flush(pending[:])
         pending.clear()
+    # Unions / Literals as members of NamedTuple / TypedDict / dataclass types that are SIBLINGS inside one
+    # field, below list / dict, and below a field-level Union (helpers reached from helpers)
+    na = len(ATOMS)
+    k = 0
+    for h1 in HELPER_CTX:
+        for h2 in HELPER_CTX:
+            pairs = [(k % na, (k * 5 + 3) % na)] if quick else [((k + j) % na, (k * 5 + 3 + 2 * j) % na) for j in range(6)]
+            k += 1
+            for (i1, i2) in pairs:
+                if i1 == i2:
+                    i2 = (i2 + 1) % na
+                for wrap in (['id', 'list'] if quick else ['id', 'list', 'dictv', 'opt', 'union']):
+                    mbx = new_mb()
+                    mbx.cls([])
+                    a = CONTEXTS[h1](ATOMS[i1][1](), mbx)
+                    b = CONTEXTS[h2](ATOMS[i2][1](), mbx)
+                    t = tup(a, b)
+                    t = {'id': t, 'list': seq('list', t), 'dictv': dct(leaf('str'), t), 'opt': opt(t),
+                         'union': union(leaf('int'), seq('list', t))}[wrap]
+                    mbx.m['classes'][0]['fields'] = [{'name': 'alpha', 'ty': t, 'default': None},
+                                                     {'name': 'beta_val', 'ty': leaf('bytearray'), 'default': None}]
+                    cases.append(('sib:%s(tup(%s(%s),%s(%s)))' % (wrap, h1, ATOMS[i1][0], h2, ATOMS[i2][0]), mbx))
+    # a field-level Union that reaches a helper type with its own Union / Literal
+    for hi, h in enumerate(HELPER_CTX[:3]):
+        for ai in (range(na) if not quick else [(hi * 4 + j) % na for j in range(4)]):
+            mbx = new_mb()
+            mbx.cls([])
+            inner = CONTEXTS[h](ATOMS[ai][1](), mbx)
+            t = union(leaf('int'), seq('list', inner))
+            mbx.m['classes'][0]['fields'] = [{'name': 'alpha', 'ty': t, 'default': None},
+                                             {'name': 'beta_val', 'ty': opt(inner), 'default': None}]
+            cases.append(('ureach:U[int,list[%s(%s)]]' % (h, ATOMS[ai][0]), mbx))
+    # atoms in every container context (depth 1)
+    for ai, (an, af) in enumerate(ATOMS):
+        for c in names:
+            add('%s(%s)' % (c, an), [c], af())
     # key cases: same small class under every consistent (load key case, dump transform) pair
     for kc, dump in [(None, 'NONE'), ('CAMEL', 'CAMEL'), ('PASCAL', 'PASCAL'), ('KEBAB', 'LISP'), ('SNAKE', 'SNAKE'),
                      ('AUTO', 'CAMEL'), ('AUTO', 'PASCAL'), ('AUTO', 'LISP'), ('AUTO', 'SNAKE'), ('AUTO', 'NONE')]:
@@ -375,6 +457,9 @@ def build_cases(ctx):
             pack = [p for p in pack if _clean_pack(p)]
             if pack:
                 flush(pack, kc, dump)
+                vn = VARIED_NAMES[:]
+                r.shuffle(vn)
+                flush(pack, kc, dump, names=vn)
     # explicit shapes
     cases.extend(explicit_models(mi, r))
     # instances
@@ -382,7 +467,7 @@ def build_cases(ctx):
         if mb.m['instances']:
             continue
         ri = ctx.sub_rng('inst', label, mb.mi)
-        for _ in range(1 if quick else 3):
+        for _ in range((3 if label.startswith(('sib:', 'ureach:')) else 1) if quick else 3):
             mb.m['instances'].append(gen_inst(ri, mb.m['root'], mb.m))
     return cases
 
@@ -491,6 +576,13 @@ def explicit_models(mi, r):
         mb.m['instances'].append(['C', mb.m['classes'][0]['name'],
                                   [['alpha', ['M', a['name'], [['I', '1']]]], ['beta_val', ['M', b['name'], [['S', 's'], ['I', '2']]]]]])
     mk('F9:same-name-namedtuples', same_name)
+    # F52 / F53 (open) and their well-behaved neighbours
+    mk('F52:union-none-first', lambda mb: (mb.cls([('alpha', optr(leaf('int'))), ('beta_val', opt(leaf('int')))]),
+                                           mb.m['instances'].append(['C', mb.m['classes'][0]['name'], [['alpha', ['I', '5']], ['beta_val', ['I', '5']]]])))
+    mk('F53:union-list-before-dict', lambda mb: (mb.cls([('alpha', union(leaf('int'), seq('list', leaf('int')), dct(leaf('str'), leaf('int'))))]),
+                                                 mb.m['instances'].append(['C', mb.m['classes'][0]['name'], [['alpha', ['D', None, [[['S', 'kk'], ['I', '1']]]]]]])))
+    mk('shape:union-dict-before-list', lambda mb: mb.cls([('alpha', union(leaf('int'), dct(leaf('str'), leaf('int')), seq('list', leaf('int')))),
+                                                          ('beta_val', seq('list', union(leaf('none'), dct(leaf('str'), leaf('str')), seq('list', leaf('str')))))]))
     mk('F28:frozenset-in-key', lambda mb: mb.cls([('alpha', dct(tup(seq('frozenset', leaf('int')), leaf('str')), leaf('int')))]), json_ok=False)
     mk('shape-F49:none-annotation', lambda mb: mb.cls([('alpha', seq('list', leaf('nonebare')))]))
     mk('shape-F48:seq-in-dict-key', lambda mb: mb.cls([('alpha', dct(seq('tuple', leaf('int')), leaf('int')))]), json_ok=False)
@@ -552,13 +644,18 @@ def classify(mb, gen, inst_tree):
     """open region of a failing case (None: no listed region)"""
     if inst_tree is not None and has_neg_td_any(inst_tree):
         return 'F3'
-    if same_names(mb.m):
-        return 'F9'
-    return None
+    return classify_py(mb)
 
 
 def classify_py(mb):
-    return 'F9' if same_names(mb.m) else None
+    m = mb.m
+    if same_names(m):
+        return 'F9'
+    if model_any(m, lambda t, mm: any(s['k'] == 'optr' for s in G.subtypes(t, mm))):
+        return 'F52'
+    if model_any(m, list_before_dict):
+        return 'F53'
+    return None
 
 
 RESOLVED = set()
@@ -699,7 +796,7 @@ def run(ctx):
 
 def _depth(t):
     k = t['k']
-    if k in ('seq', 'opt'):
+    if k in ('seq', 'opt', 'optr'):
         return 1 + _depth(t['t'])
     if k in ('tuple', 'union'):
         return 1 + max(_depth(x) for x in t['ts'])
